@@ -646,6 +646,38 @@ theorem literal_tables_as_modelled :
   decide +kernel
 
 open RsslVerif.Gen.LitFormatTables in
+/-- **Shape obligation (wave 6), re-extracted from `typer/src/casting.rs` on every run.**  When a context names a scalar
+type (initialiser, default argument, `return`, call argument, operand, array element …) the typer folds an untyped
+literal into a typed literal of that type — this is the only place between `parse_literal` and `generate_literal` where
+the payload of a literal is rewritten.  The two `if let Expression::Literal(Constant::{IntLiteral,FloatLiteral}(v)) = expr
+&& target_is_unmodified` blocks are exactly these arms: every result is a single Rust `as` cast of the literal's own
+payload (`v as f32` = one narrowing of the double, the `narrow32` of `lex_float_nearest`; `Float64(v)` unchanged), no
+arithmetic.  That each cast is Rust's is trusted; the emit stream compares the printed literal with the exact reference
+narrowing in 50 declaration / statement forms. -/
+theorem literal_fold_as_modelled :
+    literalFoldArms = [
+      ("IntLiteral", "&& target_is_unmodified", "TypeLayer::Scalar(ScalarType::Bool)", "return Expression::Literal(Constant::Bool(v != 0))"),
+      ("IntLiteral", "&& target_is_unmodified", "TypeLayer::Scalar(ScalarType::UInt32)", "return Expression::Literal(Constant::UInt32(v as u32))"),
+      ("IntLiteral", "&& target_is_unmodified", "TypeLayer::Scalar(ScalarType::Int32)", "return Expression::Literal(Constant::Int32(v as i32))"),
+      ("IntLiteral", "&& target_is_unmodified", "TypeLayer::Scalar(ScalarType::Float16)", "return Expression::Literal(Constant::Float16(v as f32))"),
+      ("IntLiteral", "&& target_is_unmodified", "TypeLayer::Scalar(ScalarType::Float32)", "return Expression::Literal(Constant::Float32(v as f32))"),
+      ("IntLiteral", "&& target_is_unmodified", "TypeLayer::Scalar(ScalarType::Float64)", "return Expression::Literal(Constant::Float64(v as f64))"),
+      ("IntLiteral", "&& target_is_unmodified", "_", ""),
+      ("FloatLiteral", "&& target_is_unmodified", "TypeLayer::Scalar(ScalarType::Bool)", "return Expression::Literal(Constant::Bool(v != 0.0))"),
+      ("FloatLiteral", "&& target_is_unmodified", "TypeLayer::Scalar(ScalarType::UInt32)", "return Expression::Literal(Constant::UInt32(v as u32))"),
+      ("FloatLiteral", "&& target_is_unmodified", "TypeLayer::Scalar(ScalarType::Int32)", "return Expression::Literal(Constant::Int32(v as i32))"),
+      ("FloatLiteral", "&& target_is_unmodified", "TypeLayer::Scalar(ScalarType::Float16)", "return Expression::Literal(Constant::Float16(v as f32))"),
+      ("FloatLiteral", "&& target_is_unmodified", "TypeLayer::Scalar(ScalarType::Float32)", "return Expression::Literal(Constant::Float32(v as f32))"),
+      ("FloatLiteral", "&& target_is_unmodified", "TypeLayer::Scalar(ScalarType::Float64)", "return Expression::Literal(Constant::Float64(v))"),
+      ("FloatLiteral", "&& target_is_unmodified", "_", "")] := by
+  decide +kernel
+
+open RsslVerif.Gen.LitFormatTables in
+/-- non-vacuity: the table is not empty and holds the arm the `initf` / `local` / `ret` … contexts exercise -/
+example : ("FloatLiteral", "&& target_is_unmodified", "TypeLayer::Scalar(ScalarType::Float32)",
+    "return Expression::Literal(Constant::Float32(v as f32))") ∈ literalFoldArms := by decide +kernel
+
+open RsslVerif.Gen.LitFormatTables in
 /-- **msl_double_literal_rejected** (positive statement after fix 9824ce3; before it `1.#INFL;` / `1e999L;` on Metal
 reached `write_infinity_f64` and panicked with `invalid msl`): (1) the Metal `generate_literal`, as extracted on this run,
 has exactly one arm for `ir::Constant::Float64` and it returns `Err(GenerateError::UnsupportedDouble)`; no arm of it builds
